@@ -28,7 +28,13 @@ judgement, a code-point level oracle that does not go through the lexer: the out
 padded-height lines (= get_padded_size) and every line of the render occurs unchanged on its own line.
 (b) ANIMATED draws (model/PadAnim.v, model/PadAnimTie.v): Renderable.draw() of a 2-3 frame text renderable on a pty with
 paddings whose top margin differs from the bottom margin; the whole output stream is executed on the terminal model and the
-padding oracle is applied to the FINAL SCREEN (last frame at (top, left) in the padded box, fill / untouched elsewhere)."""
+padding oracle is applied to the FINAL SCREEN (last frame at (top, left) in the padded box, fill / untouched elsewhere).
+
+Round 8: ANIMATED draws of the IMAGE classes (model/PadAnimOld.v, model/PadAnimOldTie.v): BaseImage.draw(animate=True) of a 2-3 frame
+GIF on a pty per style and TERMINAL IDENTITY (block; kitty new / <= 0.25.0; iterm2 style on wezterm / iterm2 / konsole; mix both
+ways) with box geometries at the boundary (a padded box of exactly one line; pad_height / pad_width smaller than, equal to, larger
+than the render); the stream is compared with the model (the style's pre-animation step + cursor_up) and executed on the terminal
+model (CSI 0 A = up ONE line): no event of any frame outside the box, final content = last frame at (top, left) + blanks."""
 from __future__ import annotations
 
 import re
@@ -959,7 +965,7 @@ def eval_extra(cases, tag="c05x"):
             return [], []
         hdr, typ, expr = {"content": (CHEADER, "ccase", "cbad cases"), "anim": (AHEADER, "acase", "abad cases"),
                           "oanim": (OHEADER, "ocase", "obad cases")}[kind]
-        bad, errs = core.coq_shards(f"{tag}{kind[0]}", hdr, ts, typ, expr, shard=max(60 if kind != "oanim" else 12, (len(ts) + 7) // 8))
+        bad, errs = core.coq_shards(f"{tag}{kind[0]}", hdr, ts, typ, expr, shard=max(60, (len(ts) + 7) // 8))
         return [(own[idx], code) for idx, code in bad], errs
     with ThreadPoolExecutor(max_workers=3) as pool:
         for bad, errs in pool.map(judge, ("content", "anim", "oanim")):
@@ -1099,7 +1105,7 @@ def run(ctx):
         nc, na = (70, 36) if ctx.quick else (2500, 1200)
         extra = (content_corpus() + anim_corpus() + [gen_content_case(rng) for _ in range(nc)]
                  + [gen_anim_case(rng) for _ in range(na)])
-        no = 10 if ctx.quick else 700
+        no = 10 if ctx.quick else 400
         extra += oanim_corpus() + [gen_oanim_case(rng) for _ in range(no)]
     from concurrent.futures import ThreadPoolExecutor
     with ThreadPoolExecutor(max_workers=3) as pool:   # the histories and the content / animation cases run beside the single cases
